@@ -10,6 +10,7 @@ CONSTANTS
   ListenerValues <- ValuesL
   OutValues <- ValuesFew
   OutKinds <- KindsOne
+  MCScopes <- ScopesTop
   Emitting = TRUE
 INVARIANT PContained
 INVARIANT PZeroIff
